@@ -120,10 +120,48 @@ class LmdbProxy:
         return getattr(self._real, name)
 
 
+class _WrittenFile:
+    """A file opened for writing: when it is closed the worker may be pre-empted (a real scheduler can switch
+    between the end of a write and whatever the program does next, e.g. a rename)."""
+
+    def __init__(self, world, f):
+        self.__dict__['_w'] = world
+        self.__dict__['_f'] = f
+
+    def __getattr__(self, name):
+        return getattr(self._f, name)
+
+    def __setattr__(self, name, value):
+        setattr(self._f, name, value)
+
+    def __iter__(self):
+        return iter(self._f)
+
+    def __enter__(self):
+        self._f.__enter__()
+        return self
+
+    def _after(self):
+        p = self._w.proc
+        if p is not None and p.scheduler is not None:
+            p.scheduler.yield_point('after-write')
+
+    def __exit__(self, *exc):
+        r = self._f.__exit__(*exc)
+        if exc[0] is None:
+            self._after()
+        return r
+
+    def close(self):
+        self._f.close()
+        self._after()
+
+
 def make_open(world):
     def sim_open(file, mode='r', *a, **k):
         if isinstance(file, (str, bytes, os.PathLike)) and any(c in mode for c in 'wax+'):
             world.seam_write(file)
+            return _WrittenFile(world, builtins.open(file, mode, *a, **k))
         return builtins.open(file, mode, *a, **k)
     return sim_open
 
@@ -329,6 +367,7 @@ class PfWorld:
         self.steps = 0
         self._installed = None
         self._zombie = False
+        self._run_outputs = None
 
     # -- helpers
     def rel(self, path):
@@ -622,8 +661,9 @@ class PfWorld:
             a += ['--input-logit-path', in_logits]
         flag = {'xml': '--output-xml-path', 'render': '--output-render-path', 'logits': '--output-logit-path',
                 'alto': '--output-alto-path', 'lines': '--output-line-path'}
+        requested = ov.get('outputs', getattr(self, '_run_outputs', None) or self.plan['outputs'])
         for kind in KINDS:
-            if kind in ov.get('outputs', self.plan['outputs']) and kind not in in_cfg:
+            if kind in requested and kind not in in_cfg:
                 a += [flag[kind], os.path.join(out, self.dirname(kind))]
         if self.plan.get('transcriptions_file') and 'outputs' not in ov:
             a += ['--output-transcriptions-file-path', os.path.join(out, 'transcriptions.txt')]
@@ -658,7 +698,10 @@ class PfWorld:
         self.proc = p
         self.res.sim_processes += 1
         self.log.add('sim', 'process-start', [os.path.basename(out), spec.get('crash_at'), spec.get('procs', 1)])
+        if spec.get('outputs') is not None and ov is None:
+            self._run_outputs = list(spec['outputs'])      # this run asks for fewer output kinds than the final request
         sys.argv = self.argv(out, procs=spec.get('procs', 1), ov=ov) + (extra_argv or [])
+        self._run_outputs = None
         _random.seed(spec.get('rng_seed', 0))
         numpy.random.seed(spec.get('rng_seed', 0) % (2 ** 31))
         so, se = io.StringIO(), io.StringIO()
